@@ -85,7 +85,7 @@ def configs():
     }
 
 
-ENDPOINTS = ['engine.io', '/eio/', 'a/b']
+ENDPOINTS = ['engine.io', '/eio/', 'a/b', 'engine.io', '/', '']     # ('/' and '': the server owns every path)
 SEGS = ['static', 'sub', 'a.txt', 'index.html', 'deep', 'c.js', 'b.css', 'secret.txt', 'public',
         '.', '..', '', '%2e%2e', 'engine.io', 'engine.iox', 'noext']
 
